@@ -77,7 +77,7 @@ check(
 
 check(
     "C11", "law",
-    "PARTIAL CLAIM - only the clause 'changing a parameter changes the law on next read'. Seeded search over sequences of parameter writes (scalars and per-element / per-Gauss-point fields), plane-stress toggles, Set_C (Voigt / Kelvin-Mandel) and reads of C, S, Get_sqrt_C_S, Walpole_Decomposition on Isotropic, TransverselyIsotropic, Orthotropic and Anisotropic laws (2D/3D, unnormalised orthogonal axes), observed by 0-2 real Elastic simulations. Oracle: a law freshly constructed with the final parameters returns byte-identical C and S; arrays returned by parameter reads are overwritten in place (no assignment: the law must not change, now or after the next write); equal-value writes and writes the setter rejects are generated on purpose (they must neither cancel a pending change nor leave a trace); whenever a write leaves an update flag down the law and the observers' matrices are read at once and must be those of the final parameters; observers reassemble the K of the final law; on every reached state C = C^T, C.S = I, eig(C) > 0, sqrt(C)^2 = C (invariants on visited states only).",
+    "PARTIAL CLAIM - only the clause 'changing a parameter changes the law on next read'. Seeded search over sequences of parameter writes (scalars and per-element / per-Gauss-point fields), plane-stress toggles, Set_C (Voigt / Kelvin-Mandel) and reads of C, S, Get_sqrt_C_S, Walpole_Decomposition on Isotropic, TransverselyIsotropic, Orthotropic and Anisotropic laws (2D/3D, unnormalised orthogonal axes), observed by 0-2 real Elastic simulations. Oracle: a law freshly constructed with the final parameters returns byte-identical C and S; arrays returned by parameter reads are overwritten in place (no assignment: the law must not change, now or after the next write); equal-value writes and writes the setter rejects are generated on purpose (they must neither cancel a pending change nor leave a trace); whenever a write leaves an update flag down the law and the observers' matrices are read at once and must be those of the final parameters; observers reassemble the K of the final law; on every reached state C = C^T, C.S = I, eig(C) > 0, sqrt(C)^2 = C, and three independent dense references for the notation / rotation / reduction clauses: an Anisotropic law equals the entered matrix (Voigt or Kelvin-Mandel) rotated as a fourth-order tensor by Q = [e1 e2 e1 x e2] with numpy.einsum; a TransverselyIsotropic / Orthotropic law with axes (a1, a2) equals its material matrix (axes on the global ones) rotated the same way; a homogeneous 2D law equals the plane-stress / plane-strain reduction of a 3D law of the same class (invariants on visited states only, not over all parameters).",
     "NOT decided: SPD / inverse / plane-stress and plane-strain reductions / notation / rotation as statements over all admissible parameters (pure functions of the input; they are evaluated only on the states the histories reach). Parameter sets that a freshly built law rejects in the same way as the live one (differential rule) are counted, not flagged.",
     "deterministic simulation: seeded write/read histories vs freshly-built reference law, ddmin-minimised replay files",
     "DESIGN.md section 5, C11",
@@ -91,7 +91,7 @@ check(
 )
 check(
     "C18", "hyper",
-    "PARTIAL CLAIM - the discrete energy-balance clause and, on the visited states only, the Newton-system consistency clause. Seeded trajectories of free motion (clamped or free bodies; static preload and/or random initial velocity) under the midpoint scheme with the gonzalez stress, the adaptive quadrature stress (energyTol = 1e-10), fixed strain-path rules (1, 2, 3, 5 points: exactly conserving for Saint-Venant-Kirchhoff, whose dW/de is linear) and the pointwise stress (not conserving: consistency checks only), optionally with Kelvin-Voigt viscosity or an active fibre stress (non-conservative: consistency checks only), for NeoHookean, Mooney-Rivlin, Ciarlet-Geymonat, Saint-Venant-Kirchhoff and Holzapfel-Ogden (two fibre families, every term switched on) laws, step-size changes and density changes between steps (the energy constant is re-based at the change; the kinetic energy uses the first assembled mass scaled by the ratio of the densities, never a mass re-read from the simulation), Save_Iter / Set_Iter rollback and injected back-end failures inside a Newton iteration followed by a retry. Invariant after every step: |KE + W - E0| <= 1e-5 of the energy scale; a failed step leaves (u, v, a) untouched; rollback returns to the recorded energy. At trial states away from u_n along the trajectory: A = coefK K + coefC C + coefM M applied to a direction equals the central difference of the assembled residual (scheme, stress option and previous state included). At the reference state each run starts from: W = 0, zero internal force, the unloaded static solve does not move the body.",
+    "PARTIAL CLAIM - the discrete energy-balance clause and, on the visited states only, the Newton-system consistency clause. Seeded trajectories of free motion (clamped or free bodies; static preload and/or random initial velocity) under the midpoint scheme with the gonzalez stress, the adaptive quadrature stress (energyTol = 1e-10), fixed strain-path rules (1, 2, 3, 5 points: exactly conserving for Saint-Venant-Kirchhoff, whose dW/de is linear) and the pointwise stress (not conserving: consistency checks only), optionally with Kelvin-Voigt viscosity or an active fibre stress (non-conservative: consistency checks only), for NeoHookean, Mooney-Rivlin, Ciarlet-Geymonat, Saint-Venant-Kirchhoff and Holzapfel-Ogden (two fibre families, every term switched on) laws, step-size changes and density changes between steps (the energy constant is re-based at the change; the kinetic energy uses the first assembled mass scaled by the ratio of the densities, never a mass re-read from the simulation), Save_Iter / Set_Iter rollback and injected back-end failures inside a Newton iteration followed by a retry. Invariant after every step: |KE + W - E0| <= 1e-5 of the energy scale; a failed step leaves (u, v, a) untouched; rollback returns to the recorded energy. At trial states away from u_n along the trajectory: A = coefK K + coefC C + coefM M applied to a direction equals the central difference of the assembled residual (scheme, stress option and previous state included). On states of the trajectory: the internal force assembled by a brand-new static simulation, contracted with a random direction, equals the central difference of the total stored energy along it. At the reference state each run starts from: W = 0, zero internal force, the unloaded static solve does not move the body.",
     "NOT decided: stress = dW/de, tangent = d(stress)/de, objectivity (pure); tangent/residual consistency is checked only for the assembled Newton system on visited states, not per operator over all inputs. Runs with a non-converging or inverted step are discarded and counted. The mass matrix is the one the simulation assembles.",
     "deterministic simulation: seeded dynamic trajectories with fault injection, conserved-quantity oracle, ddmin-minimised replay files",
     "DESIGN.md section 5, C18",
